@@ -1,1 +1,6 @@
+import EpyVerif.Model.Sim
+import EpyVerif.Model.GFFast
+import EpyVerif.Props.C03
+import EpyVerif.Props.C05
 import EpyVerif.Props.C09
+import EpyVerif.Props.C16
